@@ -577,6 +577,60 @@ func evaluateX(im image, cfg drv.Cfg, withJournal, light bool) *outcome {
 	if p != "" {
 		o.Append = "panic while appending on the recovering handle: " + p
 	}
+	if o.Append != "" {
+		return o
+	}
+	// and once more from scratch, recovering with eager migration to the other format version in
+	// the same Open: the recovery has to come first, the result is the same log
+	if err := im.materialise(dir); err != nil {
+		panic(err)
+	}
+	vrand.Reset()
+	p = safely(func() {
+		mo := ro
+		other := klevdb.V2
+		if cfg.Ver == 2 {
+			other = klevdb.V1
+		}
+		mo.Version.NewSegmentsVersion = other
+		mo.Version.EagerVersionMigrate = true
+		lg, err := klevdb.Open(dir, mo)
+		if err != nil {
+			o.Append = "Open(Recover + EagerVersionMigrate to the other version) failed: " + err.Error()
+			return
+		}
+		defer lg.Close()
+		var again []model.Msg
+		off := klevdb.OffsetOldest
+		for i := 0; i < 100; i++ {
+			next, msgs, err := safeConsume(lg, off)
+			if err != nil {
+				o.Append = fmt.Sprintf("after Open(Recover + EagerVersionMigrate) the scan failed: %v", err)
+				return
+			}
+			for _, m := range msgs {
+				again = append(again, model.Msg{Off: m.Offset, T: m.Time.UnixMicro(), Key: m.Key, Val: m.Value})
+			}
+			if len(msgs) == 0 {
+				break
+			}
+			off = next
+		}
+		n2, _ := lg.NextOffset()
+		if len(again) != len(o.Walk) || n2 != n {
+			o.Append = fmt.Sprintf("Open(Recover + EagerVersionMigrate) shows %d messages and NextOffset %d, plain recovery %d and %d", len(again), n2, len(o.Walk), n)
+			return
+		}
+		for i := range again {
+			if !again[i].Same(o.Walk[i]) {
+				o.Append = fmt.Sprintf("Open(Recover + EagerVersionMigrate): message %d differs from what plain recovery shows", i)
+				return
+			}
+		}
+	})
+	if p != "" {
+		o.Append = "panic in Open(Recover + EagerVersionMigrate): " + p
+	}
 	return o
 }
 
